@@ -491,3 +491,83 @@ for _f in ("gga_c_chachiyo", "gga_c_pbe", "gga_c_pbe_sol", "gga_x_chachiyo", "gg
     register(Obligation(name=f"C08.swap.fully_polarised_points.{_f}", prop=PROP, engine="B", bounded=True, run=SwapFullyPolarised(_f),
                         functions=["eminus.xc.utils:get_xc", f"eminus.xc.{_f}:{_f}_spin"],
                         doc=f"BOUNDED ({_f}): exchanging the spin channels at fully polarised points exchanges the outputs (same finiteness in both orientations)"))
+
+
+# ------------------------------------------------------------------------------------------------
+# closed shell with Fermi smearing: fillings, Fermi level and entropy term through both spin treatments
+# ------------------------------------------------------------------------------------------------
+
+
+class ClosedShellSmeared:
+    """BOUNDED native: one complete SCF step (eminus.minimizer.scf_step: fields, eigenvalues, Fermi level, smeared fillings, entropy term, energies) for a
+    closed-shell state with Fermi smearing and extra bands, through the spin-paired path and through the spin-polarised path with identical orbitals in both
+    channels, two and three k-points with unequal weights: same Fermi level, polarised fillings = half the paired ones, every energy contribution (entropy term
+    included) equal; after a second step as well."""
+
+    def case(self, seed, kset):
+        import dataclasses
+
+        import eminus
+        from eminus import SCF, Atoms
+        from eminus.dft import guess_random
+        from eminus.minimizer import scf_step
+
+        eminus.config.backend = "numpy"
+        eminus.config.verbose = "critical"
+        out = {}
+        W1 = None
+        for unres in (False, True):
+            at = Atoms(["Si", "C"], [[0.2, 0.1, 0.3], [0.4, 0.2, 3.1]], ecut=4, a=[[6.0, 0.3, 0.1], [0.2, 6.5, 0.4], [0.5, 0.1, 7.0]], unrestricted=unres)
+            at.s = [11, 11, 13]
+            at.occ.smearing = 0.03
+            at.occ.bands = 6
+            at.set_k(*kset)
+            scf = SCF(at, xc="lda,vwn", verbose="critical")
+            at = scf.atoms
+            if W1 is None:
+                W1 = [np.asarray(w) for w in guess_random(scf, seed=seed + 5)]
+                scf.W = [w.copy() for w in W1]
+            else:
+                scf.W = [np.concatenate([w, w], axis=0) for w in W1]
+            rec = []
+            for step in (0, 1):
+                scf_step(scf, step)
+                e = {f.name: float(getattr(scf.energies, f.name)) for f in dataclasses.fields(scf.energies)}
+                rec.append((e, np.asarray(scf.atoms.occ.f).copy()))
+            out[unres] = rec
+        diffs = {}
+        for step in (0, 1):
+            e1, f1 = out[False][step]
+            e2, f2 = out[True][step]
+            for k in e1:
+                diffs[f"step {step}: {k}"] = abs(e1[k] - e2[k])
+            diffs[f"step {step}: polarised fillings - paired fillings / 2"] = float(max(np.abs(f2[:, 0] - f1[:, 0] / 2).max(), np.abs(f2[:, 1] - f1[:, 0] / 2).max())) if f2.shape[-1] == f1.shape[-1] else float("inf")
+            wk = np.asarray(kset[1])
+            diffs[f"step {step}: weighted sum of the polarised fillings - Nelec"] = abs(float(np.sum(wk[:, None, None] * f2)) - float(np.sum(wk[:, None, None] * f1)))
+        return max(diffs.values()), {k: v for k, v in diffs.items() if v > 1e-9} or dict(worst=max(diffs.values()))
+
+    KSETS = (([[0.0, 0.0, 0.0], [0.2, 0.1, 0.05]], [0.4, 0.6]), ([[0.0, 0.0, 0.0], [0.2, 0.1, 0.05], [-0.1, 0.3, 0.2]], [0.2, 0.3, 0.5]), ([[0.1, 0.0, 0.0], [0.0, 0.25, 0.0]], [0.5, 0.5]))
+
+    def __call__(self, ob, tier, seed):
+        from pycv.framework import BOUNDED_OK
+
+        worst = 0.0
+        for i, ks in enumerate(self.KSETS):
+            try:
+                w, info = self.case(seed, ks)
+            except Exception as e:  # noqa: BLE001
+                w, info = float("inf"), dict(raised=f"{type(e).__name__}: {e}")
+            worst = max(worst, w)
+            if not w <= 1e-9:
+                return Result(REFUTED, backend="native", witness=dict(kset=i, seed=seed), replayed=True, replay_info=info,
+                              detail=f"closed-shell state with smearing, k-points {ks}: spin-polarised path differs from the spin-paired path: {info}")
+        return Result(BOUNDED_OK, backend="native", detail=f"bounded: SiC, smearing 0.03, 6 bands, three weighted k-point sets, two SCF steps: fillings halved, Fermi level, entropy term and all energies equal to {worst:.1e}")
+
+    def replay(self, wit):
+        w, info = self.case(wit["seed"], self.KSETS[wit["kset"]])
+        return bool(not w <= 1e-9), info
+
+
+register(Obligation(name="C08.scf.closed_shell_polarised_path.smeared_step", prop=PROP, engine="B", bounded=True, run=ClosedShellSmeared(), budget={"quick": 300, "thorough": 600},
+                    functions=["eminus.minimizer:scf_step", "eminus.tools:get_Efermi", "eminus.occupations:Occupations.smear", "eminus.energies:get_Eentropy", "eminus.energies:get_E"],
+                    doc="BOUNDED: closed-shell orbitals with Fermi smearing through both spin treatments: same Fermi level and energies (entropy term included), fillings halved, weighted k-points"))
